@@ -55,7 +55,7 @@ def run(ctx):
     import random
     rng = random.Random(ctx.seed * 7919 + 5)
     rng.shuffle(pairs)
-    hists = singles + pairs[:(40 if ctx.tier != "thorough" else 1500)]
+    hists = singles + pairs[:(40 if ctx.tier != "thorough" else 600)]
     reps = 3
     nsh = 32
     files = []
@@ -122,7 +122,7 @@ def run(ctx):
     ctx.assumptions += ["resource counts: /proc/self/fd, threading.active_count(), children of the process incl. zombies (tracker processes "
                         "excepted), /dev/shm/sem.loky-<pid>-*; measured after gc.collect() once three consecutive samples agree",
                         "lifecycles are the records [pool, load, busy, end] of Lifecycle.tla; quick executes all %d single lifecycles and 40 seed-chosen pairs, "
-                        "thorough 1500 pairs" % len(singles)]
+                        "thorough 600 pairs" % len(singles)]
     exec_common.run_property(ctx, "C20", ["mixed", "crash", "kill", "timeout"], 300, 3000, classify=exec_findings.classify)
     ph["esim_and_slices"] = round(time.time() - t0, 1)
     ctx.rule = ("E-REAL: one fresh interpreter per history generated by TLC from Lifecycle.tla, executed once then 3 more times, counts "
